@@ -26,7 +26,16 @@ fn seg_step(
     let mut name_id = st.name_id;
     let sources = LenOnly(n_sources);
     let names = LenOnly(n_names);
+    // `nums` is a scratch buffer carried across iterations (and, in decode_hermes, across
+    // sources): whatever an earlier iteration left in it must not matter
     let mut nums: Vec<i64> = Vec::with_capacity(16);
+    let residue: u8 = kani::any();
+    if residue >= 1 {
+        nums.push(kani::any());
+    }
+    if residue >= 2 {
+        nums.push(kani::any());
+    }
     for _once in 0..1 {
         /*@LIFT decoder_segment_body@*/
     }
